@@ -25,6 +25,8 @@ static void run(const std::vector<std::string>& ops)
     std::string flags;
     auto N = [&](int k) { return (int) c11::num(t[k]); };
     if (t[0] == "rsz") v.resize(N(1), N(2) != 0);
+    else if (t[0] == "rszd") v.resize(N(1));                         // DEFAULT ARGUMENT: resize(n) == resize(n, false)
+    else if (t[0] == "set1") v[N(1)].set(N(2));                      // DEFAULT ARGUMENT: set(n) == set(n, 1)
     else if (t[0] == "cl") v.clear();
     else if (t[0] == "sall") v.setAll();
     else if (t[0] == "uall") v.unsetAll();
@@ -88,6 +90,9 @@ static void run(const std::vector<std::string>& ops)
       }
       if (bi != cv.size()) flags += "!mitlen";
       if (cv.size() > 0 && !(v.back() == cv.back())) flags += "!mback";
+      { BV c(v); BV a; a = v;                                         // copy construction / assignment; the source is unaffected
+        if (c.size() != cv.size() || a.size() != cv.size() || c.count() != cv.count() || a.count() != cv.count()) flags += "!cpy";
+        std::size_t before = cv.count(); c.setAll(); a.resize(0); if (cv.count() != before) flags += "!cpysrc"; }
       BV fromflat(flat); BV sized((int) cv.size()); BV filled((int) cv.size(), true);
       if (fromflat.size() != cv.size() || sized.size() != cv.size() || filled.size() != cv.size()) flags += "!ctor";
       else for (std::size_t i = 0; i < cv.size(); ++i)
@@ -117,6 +122,7 @@ int main(int argc, char** argv)
     switch (n) {
       case 1: run<1>(ops); break; case 2: run<2>(ops); break; case 3: run<3>(ops); break;
       case 5: run<5>(ops); break; case 8: run<8>(ops); break; case 9: run<9>(ops); break;
+      case 64: run<64>(ops); break; case 65: run<65>(ops); break;   // word boundaries of std::bitset / vector<bool>
       default: c11::step_done("UNKNOWN-N");
     }
   });
